@@ -128,28 +128,27 @@ def _compute_degree_iterative(expr: Expression) -> Optional[int]:
 
         # Vector expressions - these have known degrees
         if isinstance(node, LinearCombination):
-            result_stack.append(1)
+            # same answer as the recursive analyser (elements may be expressions)
+            result_stack.append(_compute_degree_impl(node))
             continue
         if isinstance(node, VectorSum):
             result_stack.append(1)
             continue
         if isinstance(node, DotProduct):
-            result_stack.append(2)
+            result_stack.append(_compute_degree_impl(node))
             continue
         if isinstance(node, QuadraticForm):
-            result_stack.append(2)
+            result_stack.append(_compute_degree_impl(node))
             continue
         if isinstance(node, VectorPowerSum):
-            # sum(x ** k) has degree k
-            result_stack.append(int(node.power))
+            result_stack.append(_compute_degree_impl(node))
             continue
         if isinstance(node, VectorUnarySum):
             # sum(sin(x)), sum(exp(x)) etc. are non-polynomial
             result_stack.append(None)
             continue
         if isinstance(node, ElementwisePower):
-            # x ** k has degree k
-            result_stack.append(int(node.power))
+            result_stack.append(_compute_degree_impl(node))
             continue
         if isinstance(node, ElementwiseUnary):
             # sin(x), exp(x) etc. are non-polynomial
@@ -255,6 +254,7 @@ def _compute_degree_impl(expr: Expression) -> Optional[int]:
         VectorSum,
         VectorPowerSum,
         VectorUnarySum,
+        VectorVariable,
         ElementwisePower,
         ElementwiseUnary,
     )
@@ -279,7 +279,7 @@ def _compute_degree_impl(expr: Expression) -> Optional[int]:
                     return None
                 max_deg = max(max_deg, d)
             return max_deg
-        return 1  # Default for unknown vector types
+        return None  # unknown vector types: no claim
 
     if isinstance(expr, VectorSum):
         if hasattr(expr.vector, "_variables"):
@@ -294,21 +294,33 @@ def _compute_degree_impl(expr: Expression) -> Optional[int]:
             return max_deg
         return 1  # Default for unknown vector types
     if isinstance(expr, DotProduct):
-        # x · y could be quadratic if both are variables
-        # For now, return 2 (quadratic) as worst case
-        return 2
+        # x · y is quadratic when both operands are plain variable vectors;
+        # expression vectors may hold elements of any degree (or none)
+        if isinstance(expr.left, VectorVariable) and isinstance(
+            expr.right, VectorVariable
+        ):
+            return 2
+        return None
     if isinstance(expr, QuadraticForm):
-        # xᵀAx is always quadratic
-        return 2
+        # xᵀAx is quadratic in a plain variable vector
+        if isinstance(expr.vector, VectorVariable):
+            return 2
+        return None
     if isinstance(expr, VectorPowerSum):
-        # sum(x ** k) has degree k
-        return int(expr.power)
+        # sum(x ** k) is a polynomial of degree k only for a non-negative integer k
+        k = expr.power
+        if not float(k).is_integer() or k < 0:
+            return None
+        return int(k)
     if isinstance(expr, VectorUnarySum):
         # sum(sin(x)), sum(exp(x)) etc. are non-polynomial
         return None
     if isinstance(expr, ElementwisePower):
-        # x ** k has degree k
-        return int(expr.power)
+        # x ** k is a polynomial of degree k only for a non-negative integer k
+        k = expr.power
+        if not float(k).is_integer() or k < 0:
+            return None
+        return int(k)
     if isinstance(expr, ElementwiseUnary):
         # sin(x), exp(x) etc. are non-polynomial
         return None
